@@ -40,7 +40,7 @@ fn gen_lens(rng: &mut Rng, total: usize, dist: &mut Dist) -> Vec<usize> {
 }
 
 pub fn gen(rng: &mut Rng, tier: &str, dist: &mut Dist) -> Vec<String> {
-    let n = if tier == "thorough" { 3000 } else { 360 };
+    let n = if tier == "thorough" { 8000 } else { 1000 };
     let max_total = if tier == "thorough" { 2_000_000 } else { 300_000 };
     let mut cmds = Vec::new();
     for i in 0..n {
@@ -75,7 +75,7 @@ pub fn gen(rng: &mut Rng, tier: &str, dist: &mut Dist) -> Vec<String> {
         }
     }
     // complete files (with payloads) for small multi-block / multi-member inputs
-    let m = if tier == "thorough" { 600 } else { 60 };
+    let m = if tier == "thorough" { 1500 } else { 200 };
     for i in 0..m {
         if i % 2 == 0 {
             let mut g = gen_xz(rng, i, 2000, false, dist);
